@@ -15,6 +15,11 @@ Tie, three kinds of case against the Lean driver `drv-need`:
           other, so their clocks start at different ticks) whose `go hit if <needs>` uses framer-relative operands
           (elapsed, recurred, `x of framer`, `y of framer`) that are given different values per instance; observed per
           instance: taken at which evaluation / not taken, compared with the model run per instance
+  history one clause through the real actor, evaluated again and again by the SAME actor instance while the state and
+          goal shares are changed in between by every write path the store offers: update(), change(), the .value
+          setter, item assignment, create() (no effect on an existing field), deleting and re-adding the field, and
+          replacing the whole record through the Share.data setter; every evaluation must give what the written
+          condition gives on the CURRENT contents
 Every case is in mode q (ints and dyadic floats: float arithmetic exact, compared with the exact-rational
 instantiation the theorems are about) or mode f (decimal-grid and random doubles, on and one ulp next to the band
 edges goal-|tol|, goal+|tol|: compared bit for bit with the same definitions instantiated at Lean Float).
@@ -160,7 +165,10 @@ class CHECK(core.Check):
             "same conditions as `let me if` entry guard and `go` transition inside an auxiliary framer that is either plain "
             "or a moot framer run as a clone (`aux worker as w1`); clones: a moot framer cloned 2 or 3 times in sequence, "
             "`go hit if` on framer-relative operands (elapsed, recurred, `x of framer`) with different values per "
-            "instance, every instance compared with its own model run; ints beyond 2**53 (neighbouring values, goal direct "
+            "instance, every instance compared with its own model run; history: one clause evaluated repeatedly by the same actor "
+            "instance while its state / goal shares are rewritten through update, change, .value, item assignment, "
+            "create, delete+re-add and whole-record replacement via the Share.data setter, every evaluation compared "
+            "with the condition on the current contents; ints beyond 2**53 (neighbouring values, goal direct "
             "and indirect, mostly WITHOUT a tolerance clause so that the Builder's default tolerance is what reaches "
             "Need.Check) in 20% of the q-mode condition lists of every script-level kind plus an exhaustive table. "
             "30% of the random cases of every kind in mode f: "
@@ -399,7 +407,43 @@ class CHECK(core.Check):
         return {"kind": "clones", "mode": "q", "clauses": cs, "env": env, "rel": rel, "period": "q:1/8",
                 "limit": rng.choice([3, 4])}
 
+    WRITES = ["update", "change", "value", "item", "create", "readd", "data", "data", "data+"]
+
+    def _history_case(self, rng):
+        mode = "f" if rng.random() < 0.2 else "q"
+        big = (mode == "q" and rng.random() < 0.1)
+        cs, env = self._clauses_env(rng, mode, 1, clocks=False, big=big)
+        c = cs[0]
+        keys = [c["k"]] + ([c["goal"]["ref"]] if c["kind"] == "c" and "ref" in c["goal"] else [])
+        for k in keys:
+            env.setdefault(str(k), self._val(rng, "num") if mode == "q" and not big else
+                           (self._ftok(self._fnum(rng)) if mode == "f" else self._bigint(rng)))
+        steps = []
+        for _ in range(rng.choice([1, 2, 3, 4])):
+            writes = []
+            for k in keys:
+                if rng.random() < 0.7:
+                    how = rng.choice(self.WRITES)
+                    if how == "value" and REFS[k][1] not in (None, "value"):
+                        how = "item"
+                    old = env[str(k)]
+                    r = rng.random()
+                    if big:
+                        new = self._bigint(rng, near=old)
+                    elif mode == "f":
+                        new = self._ftok(self._fnum(rng)) if r < 0.7 else old
+                    elif r < 0.5 and c["kind"] == "c":
+                        goal = c["goal"].get("lit") if "lit" in c["goal"] else env[str(c["goal"]["ref"])]
+                        new = self._near(rng, goal, c["tol"])
+                    else:
+                        new = self._val(rng)
+                    writes.append([k, how, new])
+            steps.append(writes)
+        return {"kind": "history", "mode": mode, "clause": c, "env": env, "steps": steps}
+
     def generate(self, rng, n, tier):
+        for i in range(max(40, n // 8)):
+            yield self._history_case(rng)
         for i in range(max(30, n // 10)):
             yield self._clones_case(rng)
         n_script = max(40, n // 8)
@@ -507,6 +551,8 @@ class CHECK(core.Check):
             return [self._impl_guard(case)]
         if kind == "clones":
             return self._impl_clones(case)
+        if kind == "history":
+            return self._impl_history(case)
         return [self._impl_script(case)]
 
     def _impl_acts(self, case):
@@ -678,6 +724,81 @@ class CHECK(core.Check):
             except OSError:
                 pass
 
+    @staticmethod
+    def _history_envs(case):
+        """contents of the fields at every evaluation (documented effect of each write path)"""
+        cur = dict(case["env"])
+        envs = [dict(cur)]
+        for writes in case["steps"]:
+            for k, how, tok in writes:
+                if how != "create":                       # create() leaves an existing field alone
+                    cur[str(k)] = tok
+            envs.append(dict(cur))
+        return envs
+
+    def _impl_history(self, case):
+        from ioflo.base import needing, acting, storing
+        store = storing.Store(stamp=0.0)
+        shares = {}
+
+        def share(k):
+            path, field = REFS[k]
+            if k not in shares:
+                sh = store.create(path)
+                field = field or "value"
+                sh[field] = py(case["env"][str(k)]) if str(k) in case["env"] else 0.0
+                shares[k] = (sh, field)
+            return shares[k]
+
+        c = case["clause"]
+        st, sf = share(c["k"])
+        if c["kind"] == "b":
+            actor, parms = needing.NeedBoolean(store=store), dict(state=st, stateField=sf)
+        elif "lit" in c["goal"]:
+            actor = needing.NeedDirect(store=store)
+            parms = dict(state=st, stateField=sf, comparison=c["cmp"], goal=py(c["goal"]["lit"]), tolerance=py(c["tol"]))
+        else:
+            gs, gf = share(c["goal"]["ref"])
+            actor = needing.NeedIndirect(store=store)
+            parms = dict(state=st, stateField=sf, comparison=c["cmp"], goal=gs, goalField=gf, tolerance=py(c["tol"]))
+        act = (acting.Nact if c["neg"] else acting.Act)(actor=actor, parms=parms)
+
+        def ev():
+            try:
+                r = act()
+            except TypeError:
+                return "E TypeError"
+            except KeyError:
+                return "E KeyError"
+            return "T" if r is True else "F" if r is False else "? %r" % (r,)
+
+        out = [ev()]
+        for writes in case["steps"]:
+            for k, how, tok in writes:
+                sh, field = share(k)
+                v = py(tok)
+                if how == "update":
+                    sh.update(**{field: v})
+                elif how == "change":
+                    sh.change(**{field: v})
+                elif how == "value":
+                    sh.value = v
+                elif how == "item":
+                    sh[field] = v
+                elif how == "create":
+                    sh.create(**{field: v})
+                elif how == "readd":
+                    del sh[field]
+                    sh[field] = v
+                elif how == "data":
+                    sh.data = storing.Data(**{field: v})
+                elif how == "data+":
+                    sh.data = storing.Data([("extra", 1), (field, v)])
+                else:
+                    raise core.Infra("bad write " + how)
+            out.append(ev())
+        return out
+
     def _inst_env(self, case, i):
         e = dict(case["env"])
         e.update(case["rel"][i])
@@ -758,6 +879,9 @@ class CHECK(core.Check):
             return ["%s check %s %s %s %s" % (m, wire(case["state"], m), cmp_, wire(case["goal"], m), wire(case["tol"], m))]
         if case["kind"] == "acts":
             return ["%s all %s %s" % (m, self._env_wire(case["env"], m), self._clause_wire(case["clause"], m))]
+        if case["kind"] == "history":
+            return ["%s all %s %s" % (m, self._env_wire(e, m), self._clause_wire(case["clause"], m))
+                    for e in self._history_envs(case)]
         if case["kind"] == "clones":
             return ["%s frame %s %d %s %s" % (m, wire(case["period"], m), case["limit"],
                                               self._env_wire(self._inst_env(case, i), m), cl(case["clauses"]))
@@ -810,6 +934,18 @@ class CHECK(core.Check):
         return "miss"
 
     def oracle(self, case, out):
+        if case["kind"] == "history":
+            envs = self._history_envs(case)
+            if len(out) != len(envs):
+                return "unexpected output %r" % (out,)
+            show = {True: "T", False: "F", "TypeError": "E TypeError"}
+            for i, (e, got) in enumerate(zip(envs, out)):
+                want = show[self._spec_clause(case["clause"], e)]
+                if got != want:
+                    return "evaluation %d of `%s` after %s: %s, the written condition on the current contents %s gives %s" % (
+                        i, self.cond_text([case["clause"]]), case["steps"][i - 1] if i else "construction", got,
+                        {k: py(v) for k, v in e.items()}, want)
+            return None
         if case["kind"] == "clones":
             if len(out) != len(case["rel"]):
                 return "unexpected output %r" % (out,)
@@ -875,6 +1011,8 @@ class CHECK(core.Check):
     def nontrivial(self, case, out):
         if not out or out[0].startswith(("E", "?", "BUILD", "HARNESS")):
             return False
+        if case["kind"] == "history":
+            return len(set(out)) > 1                      # the result changed along the history
         if case["kind"] == "clones":
             return len(set(out)) > 1                      # the instances behaved differently
         if case["kind"] == "check":
@@ -882,6 +1020,10 @@ class CHECK(core.Check):
         return True
 
     def bucket(self, case, out):
+        if case["kind"] == "history":
+            hows = sorted({w[1] for ws in case["steps"] for w in ws})
+            return "history/%s/%s/%s" % (case["mode"], "changes" if len(set(out)) > 1 else "constant",
+                                         "record-replaced" if any(h.startswith("data") for h in hows) else "in-place")
         if case["kind"] == "clones":
             kinds = sorted({o.split()[0] for o in out})
             differ = len(set(out)) > 1
@@ -906,6 +1048,18 @@ class CHECK(core.Check):
         return "script/%dclauses%s/%s" % (len(case["clauses"]), "/clock" if clocks else "", res)
 
     def shrink_candidates(self, case):
+        if case["kind"] == "history":
+            for i in range(len(case["steps"])):
+                c = dict(case)
+                c["steps"] = case["steps"][:i] + case["steps"][i + 1:]
+                yield c
+            for i, ws in enumerate(case["steps"]):
+                for j in range(len(ws)):
+                    c = dict(case)
+                    c["steps"] = [list(x) for x in case["steps"]]
+                    c["steps"][i] = ws[:j] + ws[j + 1:]
+                    yield c
+            return
         if case["kind"] == "clones":
             if len(case["clauses"]) > 1:
                 for i in range(len(case["clauses"])):
